@@ -8,6 +8,7 @@ open RedunModel RedunModel.ValueStore
    (record <val> i<min> i<max>)               <val> ::= (plain b<pickle>) | (fc b<payload>)        -> (ok <key>) | !RedunDatabaseError
    (recordwatch <val> i<min> i<max>)          record while another backend reads the value inside the store write window
                                               -> <record reply> <read reply | - (no existing object)>
+   (faultfc b<payload>)                       record of a FileCache value failing inside the write of its file -> !OSError
    (getaway <key>)                            get while the store directory is moved away (state unchanged)  -> as get
    (get <key>)                                <key> ::= (T|F b<data>)                              -> absent | <val> | !AssertionError
    (dropstore <key>) (dropfc b<fname>) (attach)                                                     -> ok
@@ -112,6 +113,11 @@ def stepLine (st : DSt) (line : String) : DSt × String :=
   | some [.list [.atom "dropstore", k]] =>
     match pKey k with
     | some k => ({ st with s := dropStore k st.s }, "ok")
+    | none => (st, "bad-value")
+  | some [.list [.atom "faultfc", b]] =>
+    match pB b with
+    | some p => if (lookup p st.names).isNone then (st, "bad-value")
+                else ({ st with s := faultFc (fnOf st.names) p st.s }, "!OSError")
     | none => (st, "bad-value")
   | some [.list [.atom "dropfc", f]] =>
     match pB f with
